@@ -657,3 +657,14 @@ func sortedThreadIDs(ts []*thread) []int {
 	sort.Ints(ids)
 	return ids
 }
+
+// Visible is a scheduling point for harness doubles: call it at the start of every action
+// the environment can observe (transport write, broker call, application callback), so that
+// other threads can be scheduled between the implementation's last synchronisation and the
+// observable action.
+func Visible() {
+	if !Active() || Killed() {
+		return
+	}
+	Point(OpOther, nil)
+}
